@@ -1,5 +1,5 @@
-\* C10 exhaustive: the growing family of contexts (immutability, shadowing), shallow stack
-CONSTANTS NT = 1  NK = 2  NV = 1  NS = 1  MaxCtx = 3  MaxSet = 2  MaxDepth = 1  MaxMap = 2  MaxDrop = 3  WithEmpty = FALSE
+\* C10 exhaustive: keys re-bound to the empty ContextValue ("clear a key"): shadowing consistent between GetValue and HasKey
+CONSTANTS NT = 1  NK = 2  NV = 1  NS = 0  MaxCtx = 3  MaxSet = 3  MaxDepth = 0  MaxMap = 2  MaxDrop = 0  WithEmpty = TRUE
           GenDepth = 0  DeepTarget = 99  Hist = FALSE  KeepFlags = FALSE  Dev = {}
 INIT Init
 NEXT Next
